@@ -164,12 +164,15 @@ class WrapperUnit(VU):
             args = [S("oid_text"), self.xv.fresh(ctx, "set_value")]
         elif m == "multiset":
             args = [PDict([(S("oid_text%d" % j), self.xv.fresh(ctx, "set_value%d" % j)) for j in range(max(self.k, 1))])]
-        elif m == "bulkget":
-            args = [[S("scalar_text")], [S("repeater_text")]]
+        kwargs = {}
+        if m == "bulkget":
+            # max-repetitions counts PER repeating OID: with one repetition and several repeaters the listing is longer than it
+            args = [[S("scalar_text")], [S("repeater_text%d" % j) for j in range(max(self.k, 1))]]
+            kwargs = {"max_list_size": 1}
         fn = get_func(rt, interp, self.target)
         exc = result = None
         try:
-            result = interp.call(BoundMethod(fn, wrapper), args, {})
+            result = interp.call(BoundMethod(fn, wrapper), args, kwargs)
             if isinstance(result, GenResult):
                 result = list(result.items)
         except PyExc as pe:
